@@ -6,6 +6,11 @@ Ltac Zify.zify_post_hook ::= Z.to_euclidean_division_equations.
 Definition wfo (s : var) : Prop := idx s < 2.
 Definition abso (s : var) : option Z := if has_value s then Some (val s) else None.
 
+Lemma abso_engaged : forall s, has_value s = true -> abso s = Some (val s).
+Proof. intros s H. unfold abso. rewrite H. reflexivity. Qed.
+Lemma abso_disengaged : forall s, has_value s = false -> abso s = None.
+Proof. intros s H. unfold abso. rewrite H. reflexivity. Qed.
+
 Lemma wfo_wfv : forall T s, wfo s -> wfv (oalts T) s.
 Proof. intros T s H; exact H. Qed.
 
@@ -44,7 +49,10 @@ Lemma opt_assign_value_ok : forall T s src v, wfo s ->
 Proof.
   intros T s src v H. unfold opt_assign_value.
   destruct (negb (is_scalar T) && negb (ty_eqb T src)).
-  - apply opt_emplace_ok. exact H.
+  - destruct (has_value s) eqn:E.
+    + rewrite opt_deref_ok by exact E. cbn [rbind]. unfold has_value in E. apply Nat.eqb_eq in E.
+      rewrite E. reflexivity.
+    + apply opt_emplace_ok. exact H.
   - apply assign_temp_ok; [exact H|apply wfo_replace1].
 Qed.
 
@@ -117,7 +125,7 @@ Theorem ostep_refines : forall T U s o, wfos s ->
 Proof.
   intros T U [ab c] o [Ha [Hb Hc]]. cbn [fst snd] in Ha, Hb, Hc.
   pose proof wfo_replace1 as W1. pose proof wfo_replace0 as W0. pose proof (wfo_replace0 0%Z : wfo opt_empty) as We.
-  destruct o as [t v|t v|t v|t|t|t|t|t|t|t| |t|t|t|t|t|t|t|v| |t v|t v|t];
+  destruct o as [t v|t v|t v|t|t|t|t|t|t|t| |t|t|t|t|t|t|t|v| |t v|t v|t|t];
     unfold absos; cbn [ostep so_step fst snd].
   - (* emplace *)
     ostep_setup t ab x y Hx Hy Hput. rewrite opt_emplace_ok by exact Hx. cbn [rbind].
@@ -217,6 +225,13 @@ Proof.
   - (* x = O() / O(nullopt) *)
     ostep_setup t ab x y Hx Hy Hput. rewrite assign_temp_ok by (try exact Hx; apply W0). cbn [rbind].
     ofinish t opt_empty y c.
+  - (* x = x->v *)
+    ostep_setup t ab x y Hx Hy Hput. destruct (has_value x) eqn:Ev.
+    + rewrite opt_deref_ok by exact Ev. cbn [rbind]. rewrite opt_assign_value_ok by exact Hx. cbn [rbind].
+      rewrite (abso_engaged x Ev). ofinish t (replace 1 (conv TInt T (val x))) y c.
+    + rewrite (abso_disengaged x Ev).
+      eexists; split; [reflexivity|]. split; [rewrite <- Hput; unfold absos; cbn [fst snd]; rewrite (abso_put t x y), (abso_disengaged x Ev); reflexivity|].
+      unfold wfos; cbn [fst snd]; auto.
 Qed.
 
 Theorem orun_refines : forall T U ops s, wfos s ->
@@ -250,10 +265,6 @@ Proof.
 Qed.
 
 (** ** the ref-qualified overloads *)
-Lemma abso_engaged : forall s, has_value s = true -> abso s = Some (val s).
-Proof. intros s H. unfold abso. rewrite H. reflexivity. Qed.
-Lemma abso_disengaged : forall s, has_value s = false -> abso s = None.
-Proof. intros s H. unfold abso. rewrite H. reflexivity. Qed.
 Lemma abso_steal : forall T s, has_value s = true -> abso (steal T s) = Some (moved_val T (val s)).
 Proof. intros T s H. unfold abso, steal, has_value in *. cbn [idx val]. rewrite H. reflexivity. Qed.
 
